@@ -536,6 +536,50 @@ fn conversions(run: &mut Run) {
     use std::convert::TryFrom;
     let g: Vec<(f64, f64)> = (0..3).flat_map(|x| (0..3).map(move |y| (x as f64, y as f64))).collect();
     let n = g.len();
+    // Rect corners of very different magnitude / sign (min + (max - min) != max in floating point) and integer rects wider than half the range:
+    // every conversion must carry the STORED corners, not values recomputed from width and height
+    {
+        let vals: Vec<f64> = vec![-1e16, -73.98, -0.1, 0.0, 0.1, 0.3, 1.0, 12345.678, 1.0000000000000002e16];
+        let nv = vals.len();
+        run.stage("conversions-awkward-rects", nv * nv * nv * nv, |idx, acc| {
+            let (x0, y0, x1, y1) = (vals[idx / (nv * nv * nv)], vals[(idx / (nv * nv)) % nv], vals[(idx / nv) % nv], vals[idx % nv]);
+            let r = Rect::new(Coord { x: x0, y: y0 }, Coord { x: x1, y: y1 });
+            let (mn, mx) = (Coord { x: x0.min(x1), y: y0.min(y1) }, Coord { x: x0.max(x1), y: y0.max(y1) });
+            acc.evals += 4;
+            acc.class(format!("awkward rect inexact-width{}", mn.x + (mx.x - mn.x) != mx.x || mn.y + (mx.y - mn.y) != mx.y));
+            let want = vec![Coord { x: mx.x, y: mn.y }, Coord { x: mx.x, y: mx.y }, Coord { x: mn.x, y: mx.y }, Coord { x: mn.x, y: mn.y }, Coord { x: mx.x, y: mn.y }];
+            let mut bad = |what: &str, detail: String| acc.viol(format!("conversion {} (corners of very different magnitude)", what), idx, || json!({"rect": format!("{:?}", r), "detail": detail}));
+            if r.min() != mn || r.max() != mx {
+                bad("Rect::new min/max", format!("{:?} {:?}", r.min(), r.max()));
+            }
+            let rp = r.to_polygon();
+            if rp.exterior().0 != want {
+                bad("Rect::to_polygon", format!("{:?}", rp));
+            }
+            let pf = Polygon::from(r);
+            let cyc = |v: &Vec<Coord<f64>>| -> Vec<Coord<f64>> { v[..v.len() - 1].to_vec() };
+            let (c1, c2) = (cyc(&pf.exterior().0), cyc(&want));
+            if !(c1.len() == 4 && (0..4).any(|k| (0..4).all(|i| c1[(i + k) % 4] == c2[i]))) {
+                bad("Polygon::from(Rect)", format!("{:?}", pf));
+            }
+            let corners = [mn, mx, Coord { x: mn.x, y: mx.y }, Coord { x: mx.x, y: mn.y }];
+            if r.to_lines().iter().any(|l| !corners.contains(&l.start) || !corners.contains(&l.end)) {
+                bad("Rect::to_lines", format!("{:?}", r.to_lines()));
+            }
+            match Rect::try_from(Geometry::from(r)) {
+                Ok(x) if x == r => {}
+                other => bad("Geometry::from(Rect) round trip", format!("{:?}", other)),
+            }
+            // integer twin over the full i32 range
+            let iv = |v: f64| -> i32 { if v <= -1e16 { i32::MIN } else if v >= 1e16 { i32::MAX } else { (v * 1000.0) as i32 } };
+            let ri = Rect::new(Coord { x: iv(x0), y: iv(y0) }, Coord { x: iv(x1), y: iv(y1) });
+            let wi = vec![Coord { x: ri.max().x, y: ri.min().y }, Coord { x: ri.max().x, y: ri.max().y }, Coord { x: ri.min().x, y: ri.max().y }, Coord { x: ri.min().x, y: ri.min().y }, Coord { x: ri.max().x, y: ri.min().y }];
+            match guard(|| ri.to_polygon()) {
+                Ok(p) if p.exterior().0 == wi => {}
+                other => acc.viol("conversion Rect<i32>::to_polygon (extent wider than half the range)".into(), idx, || json!({"rect": format!("{:?}", ri), "detail": format!("{:?}", other)})),
+            }
+        });
+    }
     run.stage("conversions", n * n * n, |idx, acc| {
         let (a, b, c3) = (g[idx / (n * n)], g[(idx / n) % n], g[idx % n]);
         let (ca, cb, cc) = (Coord { x: a.0, y: a.1 }, Coord { x: b.0, y: b.1 }, Coord { x: c3.0, y: c3.1 });
